@@ -1,4 +1,1503 @@
 /-
-  C13 — sparse-input metrics agree with their dense counterparts.  (theorems: see below)
+  C13 — sparse-input metrics agree with their dense counterparts.
+
+  Model: `Umap.Sparse` (umap/sparse.py) against `Umap.Metrics` (umap/distances.py).  Everything
+  is proved over an arbitrary linear ordered field `K` (so over ℚ and ℝ at once); the metrics
+  that call `sqrt` / `pow` take the few facts needed about them as hypotheses, discharged for the
+  real instance `realT` in `realT_sqrt_props` and the `…_real` corollaries.
+
+  * `Sorted`, `look`, `get`                       – strictly increasing indices, stored entry / value
+  * `look_merge`, `get_merge`                     – pointwise semantics of the three-way `merge`
+  * `get_sparseSum/Diff/Mul`                      – `+`, `-`, `*` pointwise
+  * `merge_sorted`, `sparseSum/Diff/Mul_sorted`,
+    `sparseSum/Diff/Mul_nonzero`, `…_bound`       – canonical form (sorted, no stored zero) preserved
+  * `toDense_sparseSum/Diff/Mul`                  – densification commutes with the operations
+  * `interSize_add_unionSize`, `interSize_comm`,
+    `unionSize_comm`, `interSize_le_min`          – `arr_union` / `arr_intersect` sizes
+  * `sum_dense`, `sum_look`                       – a sum over stored entries is a sum over positions
+  * `sEuclidean_eq`, `sManhattan_eq`, `sChebyshev_eq`, `sMinkowski_eq`, `sHamming_eq`,
+    `sCanberra_eq`, `sBrayCurtis_eq`, `sCosine_eq`, `sHellinger_eq`, `sCorrelation_eq`,
+    `sLlDirichlet_eq`                             – sparse metric = dense metric of `toDense`
+  * `sCounts_eq` and `sJaccard_eq`, `sMatching_eq`, `sDice_eq`, `sKulsinski_eq`,
+    `sRogersTanimoto_eq`, `sSokalMichener_eq`, `sSokalSneath_eq`, `sRussellRao_eq`
+                                                  – the binary family through the support counts
+  Hypotheses are the ones real inputs satisfy (sorted CSR rows with indices `< n`; no stored zero
+  for the binary family; non-negative data for hellinger; counts `≥ 1` for ll_dirichlet); the
+  examples at the end exhibit concrete rows satisfying them and show that sortedness / "no stored
+  zero" cannot be dropped.
 -/
 import UmapModel.Sparse
+import UmapProofs.Basic
+import UmapProofs.RealT
+import Mathlib.Tactic
+import Mathlib.Algebra.BigOperators.Group.Finset.Basic
+import Mathlib.Algebra.BigOperators.Ring.Finset
+import Mathlib.Algebra.Order.BigOperators.Group.Finset
+
+set_option linter.unusedSectionVars false
+
+namespace Umap
+namespace C13
+open Sparse
+
+variable {K : Type} [Field K] [LinearOrder K] [IsStrictOrderedRing K]
+
+/-! ### 1. definitions -/
+
+/-- strictly increasing indices. -/
+def Sorted {α : Type} (x : SVec α) : Prop := (x.map (·.1)).Pairwise (· < ·)
+
+instance {α : Type} (x : SVec α) : Decidable (Sorted x) := by unfold Sorted; infer_instance
+
+/-- the stored entry at index `i`, if any. -/
+def look {α : Type} (x : SVec α) (i : Nat) : Option α := (x.find? (·.1 == i)).map (·.2)
+
+/-- the stored value at index `i`, or `0`. -/
+def get (x : SVec K) (i : Nat) : K :=
+  match x.find? (·.1 == i) with | some p => p.2 | none => 0
+
+theorem get_eq_look (x : SVec K) (i : Nat) : get x i = (look x i).getD 0 := by
+  unfold get look
+  cases x.find? (·.1 == i) <;> rfl
+
+section generic
+variable {α : Type}
+
+@[simp] theorem look_nil (k : Nat) : look ([] : SVec α) k = none := rfl
+
+theorem look_cons (i : Nat) (a : α) (t : SVec α) (k : Nat) :
+    look ((i, a) :: t) k = if i = k then some a else look t k := by
+  unfold look
+  by_cases h : i = k
+  · simp [h]
+  · simp [h]
+
+theorem sorted_nil : Sorted ([] : SVec α) := by simp [Sorted]
+
+theorem sorted_cons (i : Nat) (a : α) (t : SVec α) :
+    Sorted ((i, a) :: t) ↔ (∀ p ∈ t, i < p.1) ∧ Sorted t := by
+  simp [Sorted, List.pairwise_cons]
+
+theorem look_none_of_lt (t : SVec α) (k : Nat) (h : ∀ p ∈ t, k < p.1) : look t k = none := by
+  induction t with
+  | nil => rfl
+  | cons p t ih =>
+    obtain ⟨i, a⟩ := p
+    rw [look_cons]
+    have := h (i, a) (by simp)
+    simp only at this
+    rw [if_neg (by omega)]
+    exact ih (fun p hp => h p (by simp [hp]))
+
+theorem look_emit (i : Nat) (o : Option α) (r : SVec α) (k : Nat) :
+    look ((match o with | some v => [(i, v)] | none => []) ++ r) k
+      = if i = k then o.or (look r k) else look r k := by
+  cases o <;> simp [look_cons]
+
+/-- pointwise semantics of the three-way merge, at the level of stored entries. -/
+theorem look_merge (f : α → α → Option α) (g1 g2 : α → Option α) (x y : SVec α)
+    (hx : Sorted x) (hy : Sorted y) (k : Nat) :
+    look (merge f g1 g2 x y) k =
+      match look x k, look y k with
+      | some a, some b => f a b
+      | some a, none => g1 a
+      | none, some b => g2 b
+      | none, none => none := by
+  fun_induction merge f g1 g2 x y with
+  | case1 => simp
+  | case2 i a t ih =>
+    rw [sorted_cons] at hx
+    refine (look_emit i (g1 a) _ k).trans ?_
+    rw [look_cons, ih hx.2 hy]
+    by_cases h : i = k
+    · subst h
+      simp [look_none_of_lt t i hx.1]
+    · simp [h]
+  | case3 j b u ih =>
+    rw [sorted_cons] at hy
+    refine (look_emit j (g2 b) _ k).trans ?_
+    rw [look_cons, ih hx hy.2]
+    by_cases h : j = k
+    · subst h
+      simp [look_none_of_lt u j hy.1]
+    · simp [h]
+  | case4 a t i b u ih =>
+    rw [sorted_cons] at hx hy
+    refine (look_emit i (f a b) _ k).trans ?_
+    rw [look_cons, look_cons, ih hx.2 hy.2]
+    by_cases h : i = k
+    · subst h
+      simp [look_none_of_lt t i hx.1, look_none_of_lt u i hy.1]
+    · simp [h]
+  | case5 i a t j b u hne hlt ih =>
+    have hy' := hy
+    rw [sorted_cons] at hx hy'
+    refine (look_emit i (g1 a) _ k).trans ?_
+    rw [look_cons, ih hx.2 hy]
+    by_cases h : i = k
+    · subst h
+      have : look ((j, b) :: u) i = none :=
+        look_none_of_lt _ _ (by
+          intro p hp
+          rcases List.mem_cons.1 hp with rfl | hp
+          · exact hlt
+          · exact lt_trans hlt (hy'.1 p hp))
+      simp [look_none_of_lt t i hx.1, this]
+    · simp [h]
+  | case6 i a t j b u hne hlt ih =>
+    have hx' := hx
+    rw [sorted_cons] at hx' hy
+    have hji : j < i := by omega
+    refine (look_emit j (g2 b) _ k).trans ?_
+    rw [look_cons (i := j), ih hx hy.2]
+    by_cases h : j = k
+    · subst h
+      have : look ((i, a) :: t) j = none :=
+        look_none_of_lt _ _ (by
+          intro p hp
+          rcases List.mem_cons.1 hp with rfl | hp
+          · exact hji
+          · exact lt_trans hji (hx'.1 p hp))
+      simp [look_none_of_lt u j hy.1, this]
+    · simp [h]
+
+theorem mem_emit {i : Nat} {o : Option α} {p : Nat × α}
+    (h : p ∈ (match o with | some v => [(i, v)] | none => [])) : p.1 = i ∧ o = some p.2 := by
+  cases o with
+  | none => simp at h
+  | some v => simp at h; subst h; simp
+
+/-- provenance of every stored entry of a merge. -/
+theorem mem_merge (f : α → α → Option α) (g1 g2 : α → Option α) (x y : SVec α) :
+    ∀ p ∈ merge f g1 g2 x y,
+      (∃ a b, (p.1, a) ∈ x ∧ (p.1, b) ∈ y ∧ f a b = some p.2)
+      ∨ (∃ a, (p.1, a) ∈ x ∧ g1 a = some p.2)
+      ∨ (∃ b, (p.1, b) ∈ y ∧ g2 b = some p.2) := by
+  fun_induction merge f g1 g2 x y with
+  | case1 => simp
+  | case2 i a t ih =>
+    intro p hp
+    rcases List.mem_append.1 hp with h | h
+    · obtain ⟨h1, h2⟩ := mem_emit h
+      exact Or.inr (Or.inl ⟨a, by simp [h1], h2⟩)
+    · rcases ih p h with ⟨a', b', h1, h2, h3⟩ | ⟨a', h1, h2⟩ | ⟨b', h1, h2⟩
+      · simp at h2
+      · exact Or.inr (Or.inl ⟨a', List.mem_cons_of_mem _ h1, h2⟩)
+      · simp at h1
+  | case3 j b u ih =>
+    intro p hp
+    rcases List.mem_append.1 hp with h | h
+    · obtain ⟨h1, h2⟩ := mem_emit h
+      exact Or.inr (Or.inr ⟨b, by simp [h1], h2⟩)
+    · rcases ih p h with ⟨a', b', h1, h2, h3⟩ | ⟨a', h1, h2⟩ | ⟨b', h1, h2⟩
+      · simp at h1
+      · simp at h1
+      · exact Or.inr (Or.inr ⟨b', List.mem_cons_of_mem _ h1, h2⟩)
+  | case4 a t i b u ih =>
+    intro p hp
+    rcases List.mem_append.1 hp with h | h
+    · obtain ⟨h1, h2⟩ := mem_emit h
+      exact Or.inl ⟨a, b, by simp [h1], by simp [h1], h2⟩
+    · rcases ih p h with ⟨a', b', h1, h2, h3⟩ | ⟨a', h1, h2⟩ | ⟨b', h1, h2⟩
+      · exact Or.inl ⟨a', b', List.mem_cons_of_mem _ h1, List.mem_cons_of_mem _ h2, h3⟩
+      · exact Or.inr (Or.inl ⟨a', List.mem_cons_of_mem _ h1, h2⟩)
+      · exact Or.inr (Or.inr ⟨b', List.mem_cons_of_mem _ h1, h2⟩)
+  | case5 i a t j b u hne hlt ih =>
+    intro p hp
+    rcases List.mem_append.1 hp with h | h
+    · obtain ⟨h1, h2⟩ := mem_emit h
+      exact Or.inr (Or.inl ⟨a, by simp [h1], h2⟩)
+    · rcases ih p h with ⟨a', b', h1, h2, h3⟩ | ⟨a', h1, h2⟩ | ⟨b', h1, h2⟩
+      · exact Or.inl ⟨a', b', List.mem_cons_of_mem _ h1, h2, h3⟩
+      · exact Or.inr (Or.inl ⟨a', List.mem_cons_of_mem _ h1, h2⟩)
+      · exact Or.inr (Or.inr ⟨b', h1, h2⟩)
+  | case6 i a t j b u hne hlt ih =>
+    intro p hp
+    rcases List.mem_append.1 hp with h | h
+    · obtain ⟨h1, h2⟩ := mem_emit h
+      exact Or.inr (Or.inr ⟨b, by simp [h1], h2⟩)
+    · rcases ih p h with ⟨a', b', h1, h2, h3⟩ | ⟨a', h1, h2⟩ | ⟨b', h1, h2⟩
+      · exact Or.inl ⟨a', b', h1, List.mem_cons_of_mem _ h2, h3⟩
+      · exact Or.inr (Or.inl ⟨a', h1, h2⟩)
+      · exact Or.inr (Or.inr ⟨b', List.mem_cons_of_mem _ h1, h2⟩)
+
+/-- every stored index of the result is a stored index of one of the inputs. -/
+theorem mem_merge_fst (f : α → α → Option α) (g1 g2 : α → Option α) (x y : SVec α)
+    (p : Nat × α) (hp : p ∈ merge f g1 g2 x y) :
+    (∃ q ∈ x, q.1 = p.1) ∨ (∃ q ∈ y, q.1 = p.1) := by
+  rcases mem_merge f g1 g2 x y p hp with ⟨a', b', h1, h2, h3⟩ | ⟨a', h1, h2⟩ | ⟨b', h1, h2⟩
+  · exact Or.inl ⟨_, h1, rfl⟩
+  · exact Or.inl ⟨_, h1, rfl⟩
+  · exact Or.inr ⟨_, h1, rfl⟩
+
+/-- a bound on the indices of both inputs is a bound on the indices of the result. -/
+theorem merge_index_bound (P : Nat → Prop) (f : α → α → Option α) (g1 g2 : α → Option α)
+    (x y : SVec α) (hx : ∀ p ∈ x, P p.1) (hy : ∀ p ∈ y, P p.1) :
+    ∀ p ∈ merge f g1 g2 x y, P p.1 := by
+  intro p hp
+  rcases mem_merge_fst f g1 g2 x y p hp with ⟨q, hq, e⟩ | ⟨q, hq, e⟩
+  · exact e ▸ hx q hq
+  · exact e ▸ hy q hq
+
+theorem sorted_emit_append (i : Nat) (o : Option α) (r : SVec α) (hr : Sorted r)
+    (hlt : ∀ p ∈ r, i < p.1) :
+    Sorted ((match o with | some v => [(i, v)] | none => []) ++ r) := by
+  cases o with
+  | none => simpa using hr
+  | some v => exact (sorted_cons i v r).2 ⟨hlt, hr⟩
+
+/-- 4. the result of a merge of sorted vectors is sorted. -/
+theorem merge_sorted (f : α → α → Option α) (g1 g2 : α → Option α) (x y : SVec α)
+    (hx : Sorted x) (hy : Sorted y) : Sorted (merge f g1 g2 x y) := by
+  fun_induction merge f g1 g2 x y with
+  | case1 => exact sorted_nil
+  | case2 i a t ih =>
+    rw [sorted_cons] at hx
+    exact sorted_emit_append i (g1 a) _ (ih hx.2 hy)
+      (merge_index_bound (i < ·) f g1 g2 _ _ hx.1 (by simp))
+  | case3 j b u ih =>
+    rw [sorted_cons] at hy
+    exact sorted_emit_append j (g2 b) _ (ih hx hy.2)
+      (merge_index_bound (j < ·) f g1 g2 _ _ (by simp) hy.1)
+  | case4 a t i b u ih =>
+    rw [sorted_cons] at hx hy
+    exact sorted_emit_append i (f a b) _ (ih hx.2 hy.2)
+      (merge_index_bound (i < ·) f g1 g2 _ _ hx.1 hy.1)
+  | case5 i a t j b u hne hlt ih =>
+    have hy' := hy
+    rw [sorted_cons] at hx hy'
+    refine sorted_emit_append i (g1 a) _ (ih hx.2 hy)
+      (merge_index_bound (i < ·) f g1 g2 _ _ hx.1 ?_)
+    intro p hp
+    rcases List.mem_cons.1 hp with rfl | hp
+    · exact hlt
+    · exact lt_trans hlt (hy'.1 p hp)
+  | case6 i a t j b u hne hlt ih =>
+    have hx' := hx
+    rw [sorted_cons] at hx' hy
+    have hji : j < i := by omega
+    refine sorted_emit_append j (g2 b) _ (ih hx hy.2)
+      (merge_index_bound (j < ·) f g1 g2 _ _ ?_ hy.1)
+    intro p hp
+    rcases List.mem_cons.1 hp with rfl | hp
+    · exact hji
+    · exact lt_trans hji (hx'.1 p hp)
+
+/-- the merge is symmetric up to swapping the roles of the two sides. -/
+theorem merge_swap (f : α → α → Option α) (g1 g2 : α → Option α) (x y : SVec α) :
+    merge f g1 g2 x y = merge (fun b a => f a b) g2 g1 y x := by
+  fun_induction merge f g1 g2 x y with
+  | case1 => simp [merge]
+  | case2 i a t ih => rw [merge, ← ih]
+  | case3 j b u ih => rw [merge, ← ih]
+  | case4 a t i b u ih => rw [merge, if_pos rfl, ← ih]
+  | case5 i a t j b u hne hlt ih =>
+    rw [merge, if_neg (fun h => hne h.symm), if_neg (by omega), ← ih]
+  | case6 i a t j b u hne hlt ih =>
+    rw [merge, if_neg (fun h => hne h.symm), if_pos (by omega), ← ih]
+
+theorem look_mapVal (h : α → α) (y : SVec α) (k : Nat) :
+    look (y.map (fun p => (p.1, h p.2))) k = (look y k).map h := by
+  induction y with
+  | nil => rfl
+  | cons p t ih =>
+    obtain ⟨i, a⟩ := p
+    simp only [List.map_cons, look_cons, ih]
+    split_ifs <;> rfl
+
+theorem sorted_mapVal (h : α → α) (y : SVec α) :
+    Sorted (y.map (fun p => (p.1, h p.2))) ↔ Sorted y := by
+  unfold Sorted
+  rw [List.map_map]
+  rfl
+
+theorem length_emit_append (i : Nat) (o : Option α) (r : SVec α) :
+    ((match o with | some v => [(i, v)] | none => []) ++ r).length
+      = (if o.isSome then 1 else 0) + r.length := by
+  cases o <;> simp [Nat.add_comm]
+
+end generic
+
+/-! ### 2. pointwise semantics of `merge` -/
+
+/-- the value at index `i` of `merge f g1 g2 x y` (sorted `x`, `y`) is decided by where `i` is
+    stored: in both, only in `x`, only in `y`, or in neither. -/
+theorem get_merge (f : K → K → Option K) (g1 g2 : K → Option K) (x y : SVec K)
+    (hx : Sorted x) (hy : Sorted y) (i : Nat) :
+    get (merge f g1 g2 x y) i =
+      match look x i, look y i with
+      | some a, some b => (f a b).getD 0
+      | some a, none => (g1 a).getD 0
+      | none, some b => (g2 b).getD 0
+      | none, none => 0 := by
+  rw [get_eq_look, look_merge f g1 g2 x y hx hy i]
+  cases look x i <;> cases look y i <;> rfl
+
+theorem keepNZ_getD (v : K) : (keepNZ v).getD 0 = v := by
+  unfold keepNZ isZ
+  by_cases h : v = 0 <;> simp [h]
+
+theorem keepNZ_ne {v w : K} (h : keepNZ v = some w) : w ≠ 0 := by
+  unfold keepNZ isZ at h
+  by_cases h0 : v = 0
+  · simp [h0] at h
+  · simp [h0] at h; exact h ▸ h0
+
+/-! ### 3. sum, difference, product -/
+
+theorem get_sparseSum (x y : SVec K) (hx : Sorted x) (hy : Sorted y) (i : Nat) :
+    get (sparseSum x y) i = get x i + get y i := by
+  unfold sparseSum
+  rw [get_merge _ _ _ x y hx hy, get_eq_look x, get_eq_look y]
+  cases look x i <;> cases look y i <;> simp [keepNZ_getD]
+
+theorem get_mapVal (h : K → K) (h0 : h 0 = 0) (y : SVec K) (i : Nat) :
+    get (y.map (fun p => (p.1, h p.2))) i = h (get y i) := by
+  rw [get_eq_look, get_eq_look, look_mapVal]
+  cases look y i <;> simp [h0]
+
+theorem get_sparseDiff (x y : SVec K) (hx : Sorted x) (hy : Sorted y) (i : Nat) :
+    get (sparseDiff x y) i = get x i - get y i := by
+  unfold sparseDiff
+  rw [get_sparseSum x _ hx ((sorted_mapVal _ y).2 hy), get_mapVal (fun v => -v) neg_zero]
+  ring
+
+theorem get_sparseMul (x y : SVec K) (hx : Sorted x) (hy : Sorted y) (i : Nat) :
+    get (sparseMul x y) i = get x i * get y i := by
+  unfold sparseMul
+  rw [get_merge _ _ _ x y hx hy, get_eq_look x, get_eq_look y]
+  cases look x i <;> cases look y i <;> simp [keepNZ_getD]
+
+/-! ### 4. canonical form is preserved -/
+
+theorem sparseSum_sorted (x y : SVec K) (hx : Sorted x) (hy : Sorted y) :
+    Sorted (sparseSum x y) := merge_sorted _ _ _ x y hx hy
+
+theorem sparseDiff_sorted (x y : SVec K) (hx : Sorted x) (hy : Sorted y) :
+    Sorted (sparseDiff x y) := sparseSum_sorted x _ hx ((sorted_mapVal _ y).2 hy)
+
+theorem sparseMul_sorted (x y : SVec K) (hx : Sorted x) (hy : Sorted y) :
+    Sorted (sparseMul x y) := merge_sorted _ _ _ x y hx hy
+
+/-- no stored value of a sparse sum is zero (no sortedness needed). -/
+theorem sparseSum_nonzero (x y : SVec K) : ∀ p ∈ sparseSum x y, p.2 ≠ 0 := by
+  intro p hp
+  rcases mem_merge _ _ _ x y p hp with ⟨a, b, -, -, h⟩ | ⟨a, -, h⟩ | ⟨b, -, h⟩ <;>
+    exact keepNZ_ne h
+
+theorem sparseDiff_nonzero (x y : SVec K) : ∀ p ∈ sparseDiff x y, p.2 ≠ 0 :=
+  sparseSum_nonzero x _
+
+theorem sparseMul_nonzero (x y : SVec K) : ∀ p ∈ sparseMul x y, p.2 ≠ 0 := by
+  intro p hp
+  rcases mem_merge _ _ _ x y p hp with ⟨a, b, -, -, h⟩ | ⟨a, -, h⟩ | ⟨b, -, h⟩
+  · exact keepNZ_ne h
+  · simp at h
+  · simp at h
+
+/-- index bounds are preserved. -/
+theorem sparseSum_bound (n : Nat) (x y : SVec K) (hx : ∀ p ∈ x, p.1 < n) (hy : ∀ p ∈ y, p.1 < n) :
+    ∀ p ∈ sparseSum x y, p.1 < n := merge_index_bound (· < n) _ _ _ x y hx hy
+
+theorem sparseDiff_bound (n : Nat) (x y : SVec K) (hx : ∀ p ∈ x, p.1 < n) (hy : ∀ p ∈ y, p.1 < n) :
+    ∀ p ∈ sparseDiff x y, p.1 < n := by
+  refine sparseSum_bound n x _ hx ?_
+  intro p hp
+  obtain ⟨q, hq, rfl⟩ := List.mem_map.1 hp
+  exact hy q hq
+
+theorem sparseMul_bound (n : Nat) (x y : SVec K) (hx : ∀ p ∈ x, p.1 < n) (hy : ∀ p ∈ y, p.1 < n) :
+    ∀ p ∈ sparseMul x y, p.1 < n := merge_index_bound (· < n) _ _ _ x y hx hy
+
+/-! ### 5. densification commutes with the sparse operations -/
+
+theorem toDense_eq (n : Nat) (x : SVec K) : toDense n x = (List.range n).map (get x) := rfl
+
+theorem length_toDense (n : Nat) (x : SVec K) : (toDense n x).length = n := by
+  simp [toDense_eq]
+
+theorem getElem?_toDense (n : Nat) (x : SVec K) (i : Nat) (h : i < n) :
+    (toDense n x)[i]? = some (get x i) := by
+  simp [toDense_eq, h]
+
+/-- (the hypothesis "all indices `< n`" of the informal statement is not needed: `toDense n`
+    simply ignores larger indices on both sides.) -/
+theorem toDense_sparseSum (n : Nat) (x y : SVec K) (hx : Sorted x) (hy : Sorted y) :
+    toDense n (sparseSum x y) = List.zipWith (· + ·) (toDense n x) (toDense n y) := by
+  simp only [toDense_eq, List.zipWith_map, List.zipWith_self]
+  exact List.map_congr_left (fun i _ => get_sparseSum x y hx hy i)
+
+theorem toDense_sparseDiff (n : Nat) (x y : SVec K) (hx : Sorted x) (hy : Sorted y) :
+    toDense n (sparseDiff x y) = List.zipWith (· - ·) (toDense n x) (toDense n y) := by
+  simp only [toDense_eq, List.zipWith_map, List.zipWith_self]
+  exact List.map_congr_left (fun i _ => get_sparseDiff x y hx hy i)
+
+theorem toDense_sparseMul (n : Nat) (x y : SVec K) (hx : Sorted x) (hy : Sorted y) :
+    toDense n (sparseMul x y) = List.zipWith (· * ·) (toDense n x) (toDense n y) := by
+  simp only [toDense_eq, List.zipWith_map, List.zipWith_self]
+  exact List.map_congr_left (fun i _ => get_sparseMul x y hx hy i)
+
+/-! ### 6. counting: `arr_union` / `arr_intersect` sizes -/
+
+/-- inclusion–exclusion (no sortedness needed). -/
+theorem interSize_add_unionSize (x y : SVec K) :
+    interSize x y + unionSize x y = x.length + y.length := by
+  unfold interSize unionSize
+  fun_induction merge (fun _ _ => some (1 : K)) (fun _ => none) (fun _ => none) x y with
+  | case1 => simp [merge]
+  | case2 i a t ih => simp [merge] at ih ⊢; omega
+  | case3 j b u ih => simp [merge] at ih ⊢; omega
+  | case4 a t i b u ih => simp [merge] at ih ⊢; omega
+  | case5 i a t j b u hne hlt ih => simp [merge, hne, hlt] at ih ⊢; omega
+  | case6 i a t j b u hne hlt ih => simp [merge, hne, hlt] at ih ⊢; omega
+
+theorem interSize_comm (x y : SVec K) : interSize x y = interSize y x := by
+  unfold interSize
+  rw [merge_swap]
+
+theorem unionSize_comm (x y : SVec K) : unionSize x y = unionSize y x := by
+  unfold unionSize
+  rw [merge_swap]
+
+theorem interSize_le_left (x y : SVec K) : interSize x y ≤ x.length := by
+  unfold interSize
+  fun_induction merge (fun _ _ => some (1 : K)) (fun _ => none) (fun _ => none) x y with
+  | case1 => simp
+  | case2 i a t ih => simp at ih ⊢; omega
+  | case3 j b u ih => simp at ih ⊢; exact ih
+  | case4 a t i b u ih => simp at ih ⊢; omega
+  | case5 i a t j b u hne hlt ih => simp at ih ⊢; omega
+  | case6 i a t j b u hne hlt ih => simp at ih ⊢; omega
+
+theorem interSize_le_min (x y : SVec K) : interSize x y ≤ min x.length y.length := by
+  refine le_min (interSize_le_left x y) ?_
+  rw [interSize_comm]
+  exact interSize_le_left y x
+
+/-! ### 7. metrics end to end -/
+
+theorem get_nil (k : Nat) : get ([] : SVec K) k = 0 := rfl
+
+theorem get_cons (i : Nat) (a : K) (t : SVec K) (k : Nat) :
+    get ((i, a) :: t) k = if i = k then a else get t k := by
+  rw [get_eq_look, get_eq_look, look_cons]
+  split_ifs <;> rfl
+
+theorem get_zero_of_lt (t : SVec K) (k : Nat) (h : ∀ p ∈ t, k < p.1) : get t k = 0 := by
+  rw [get_eq_look, look_none_of_lt t k h]; rfl
+
+theorem sum_range_ite {M : Type} [AddCommMonoid M] (c : M) (i n : Nat) :
+    ((List.range n).map (fun k => if k = i then c else 0)).sum = if i < n then c else 0 := by
+  induction n with
+  | zero => simp
+  | succ n ih =>
+    rw [List.range_succ, List.map_append, List.sum_append, ih]
+    by_cases h1 : i < n
+    · have : ¬ n = i := by omega
+      simp [h1, this, Nat.lt_succ_of_lt h1]
+    · by_cases h2 : n = i
+      · subst h2; simp
+      · have : ¬ i < n + 1 := by omega
+        simp [h1, h2, this]
+
+/-- summing `h` over the stored values is summing `h` over the dense vector, when `h 0 = 0`. -/
+theorem sum_dense {M : Type} [AddCommMonoid M] (h : K → M) (h0 : h 0 = 0) (n : Nat) (z : SVec K)
+    (hz : Sorted z) (hn : ∀ p ∈ z, p.1 < n) :
+    ((toDense n z).map h).sum = ((vals z).map h).sum := by
+  induction z with
+  | nil =>
+    have : (h ∘ get ([] : SVec K)) = fun _ => (0 : M) := by
+      funext k; simp [get_nil, h0]
+    simp [toDense_eq, vals, this]
+  | cons p t ih =>
+    obtain ⟨i, a⟩ := p
+    rw [sorted_cons] at hz
+    have hi : i < n := hn (i, a) (by simp)
+    have e : (toDense n ((i, a) :: t)).map h
+        = (List.range n).map (fun k => (if k = i then h a else 0) + h (get t k)) := by
+      rw [toDense_eq, List.map_map]
+      refine List.map_congr_left (fun k _ => ?_)
+      simp only [Function.comp, get_cons]
+      by_cases hk : i = k
+      · subst hk; simp [get_zero_of_lt t i hz.1, h0]
+      · have : ¬ k = i := fun e => hk e.symm
+        simp [hk, this]
+    rw [e, List.sum_map_add, sum_range_ite, if_pos hi]
+    have := ih hz.2 (fun p hp => hn p (List.mem_cons_of_mem _ hp))
+    rw [toDense_eq, List.map_map] at this
+    simp only [Function.comp_def] at this
+    rw [this]
+    simp [vals]
+
+theorem diffs_toDense (n : Nat) (x y : SVec K) (hx : Sorted x) (hy : Sorted y) :
+    Metrics.diffs (toDense n x) (toDense n y) = toDense n (sparseDiff x y) := by
+  unfold Metrics.diffs
+  rw [toDense_sparseDiff n x y hx hy, List.map_zip_eq_zipWith]
+  rfl
+
+/-- the sparse and the dense Minkowski-family accumulators agree for any summand vanishing at 0. -/
+theorem sum_vals_sparseDiff (h : K → K) (h0 : h 0 = 0) (n : Nat) (x y : SVec K)
+    (hx : Sorted x) (hy : Sorted y) (hxn : ∀ p ∈ x, p.1 < n) (hyn : ∀ p ∈ y, p.1 < n) :
+    sumL ((vals (sparseDiff x y)).map h)
+      = sumL ((Metrics.diffs (toDense n x) (toDense n y)).map h) := by
+  rw [sumL_eq_sum, sumL_eq_sum, diffs_toDense n x y hx hy]
+  exact (sum_dense h h0 n _ (sparseDiff_sorted x y hx hy) (sparseDiff_bound n x y hxn hyn)).symm
+
+theorem absV_zero : absV (0 : K) = 0 := by simp [absV]
+
+theorem sManhattan_eq (n : Nat) (x y : SVec K)
+    (hx : Sorted x) (hy : Sorted y) (hxn : ∀ p ∈ x, p.1 < n) (hyn : ∀ p ∈ y, p.1 < n) :
+    sManhattan x y = Metrics.manhattan (toDense n x) (toDense n y) :=
+  sum_vals_sparseDiff absV absV_zero n x y hx hy hxn hyn
+
+theorem sEuclidean_eq (T : Transc K) (n : Nat) (x y : SVec K)
+    (hx : Sorted x) (hy : Sorted y) (hxn : ∀ p ∈ x, p.1 < n) (hyn : ∀ p ∈ y, p.1 < n) :
+    sEuclidean T x y = Metrics.euclidean T (toDense n x) (toDense n y) := by
+  unfold sEuclidean Metrics.euclidean
+  rw [sum_vals_sparseDiff (fun d => d * d) (by simp) n x y hx hy hxn hyn]
+
+/-- `hp`: the power function sends `0` to `0` at exponent `p` (true of `Real.rpow` for `p ≠ 0`). -/
+theorem sMinkowski_eq (T : Transc K) (p : K) (hp : T.pow 0 p = 0) (n : Nat) (x y : SVec K)
+    (hx : Sorted x) (hy : Sorted y) (hxn : ∀ p ∈ x, p.1 < n) (hyn : ∀ p ∈ y, p.1 < n) :
+    sMinkowski T p x y = Metrics.minkowski T p (toDense n x) (toDense n y) := by
+  unfold sMinkowski Metrics.minkowski
+  rw [sum_vals_sparseDiff (fun d => T.pow (absV d) p) (by simp [absV_zero, hp]) n x y hx hy hxn hyn]
+
+/-! ### the binary family: the sparse counts are the dense counts -/
+
+/-- canonical CSR row: strictly increasing indices and no stored zero. -/
+def Canonical (x : SVec K) : Prop := Sorted x ∧ ∀ p ∈ x, p.2 ≠ 0
+
+@[simp] theorem nzB_iff (v : K) : Metrics.nzB v = true ↔ v ≠ 0 := by
+  unfold Metrics.nzB
+  by_cases hv : v = 0
+  · simp [hv]
+  · have : eqV v 0 = false := Bool.eq_false_iff.2 (mt (eqV_iff _ _).1 hv)
+    simp [this, hv]
+
+theorem nzB_zero : Metrics.nzB (0 : K) = false := by
+  unfold Metrics.nzB; simp
+
+theorem counts_foldl (l : List (K × K)) (c : Metrics.Counts) :
+    l.foldl (fun (c : Metrics.Counts) (p : K × K) =>
+      match Metrics.nzB p.1, Metrics.nzB p.2 with
+      | true, true => { c with tt := c.tt + 1 }
+      | true, false => { c with tf := c.tf + 1 }
+      | false, true => { c with ft := c.ft + 1 }
+      | false, false => c) c
+    = { n := c.n,
+        tt := c.tt + l.countP (fun p => Metrics.nzB p.1 && Metrics.nzB p.2),
+        tf := c.tf + l.countP (fun p => Metrics.nzB p.1 && !Metrics.nzB p.2),
+        ft := c.ft + l.countP (fun p => !Metrics.nzB p.1 && Metrics.nzB p.2) } := by
+  induction l generalizing c with
+  | nil => simp
+  | cons p l ih =>
+    rw [List.foldl_cons, ih]
+    cases h1 : Metrics.nzB p.1 <;> cases h2 : Metrics.nzB p.2 <;>
+      simp [h1, h2] <;> omega
+
+/-- the dense counts as three `countP`s. -/
+theorem counts_eq_countP (x y : List K) :
+    Metrics.counts x y
+    = { n := x.length,
+        tt := (x.zip y).countP (fun p => Metrics.nzB p.1 && Metrics.nzB p.2),
+        tf := (x.zip y).countP (fun p => Metrics.nzB p.1 && !Metrics.nzB p.2),
+        ft := (x.zip y).countP (fun p => !Metrics.nzB p.1 && Metrics.nzB p.2) } := by
+  unfold Metrics.counts
+  exact (counts_foldl _ _).trans (by simp)
+
+theorem countP_eq_sum {β : Type} (q : β → Bool) (l : List β) :
+    l.countP q = (l.map (fun a => if q a then 1 else 0)).sum := by
+  induction l with
+  | nil => rfl
+  | cons a l ih =>
+    rw [List.countP_cons, ih, List.map_cons, List.sum_cons]
+    split_ifs <;> omega
+
+theorem countP_split {β : Type} (p q : β → Bool) (l : List β) :
+    l.countP p = l.countP (fun a => p a && q a) + l.countP (fun a => p a && !q a) := by
+  induction l with
+  | nil => rfl
+  | cons a l ih =>
+    simp only [List.countP_cons, ih]
+    cases p a <;> cases q a <;> simp <;> omega
+
+/-- a canonical row has as many stored entries as its dense form has non-zero positions. -/
+theorem length_eq_countP_dense (n : Nat) (z : SVec K) (hz : Canonical z)
+    (hn : ∀ p ∈ z, p.1 < n) :
+    z.length = (List.range n).countP (fun k => Metrics.nzB (get z k)) := by
+  have h := sum_dense (M := Nat) (fun v : K => if Metrics.nzB v then 1 else 0)
+    (by simp [nzB_zero]) n z hz.1 hn
+  have e1 : ((vals z).map (fun v : K => if Metrics.nzB v then 1 else 0)).sum = z.length := by
+    unfold vals
+    rw [List.map_map]
+    have : z.map ((fun v : K => if Metrics.nzB v then 1 else 0) ∘ (·.2)) = z.map (fun _ => 1) := by
+      refine List.map_congr_left (fun p hp => ?_)
+      have := (nzB_iff p.2).2 (hz.2 p hp)
+      show (if Metrics.nzB p.2 = true then 1 else 0) = 1
+      rw [if_pos this]
+    rw [this]
+    simp
+  rw [← e1, ← h, toDense_eq, List.map_map, countP_eq_sum]
+  rfl
+
+theorem look_some_mem {α : Type} (x : SVec α) (k : Nat) (a : α) (h : look x k = some a) :
+    (k, a) ∈ x := by
+  unfold look at h
+  cases hf : x.find? (·.1 == k) with
+  | none => simp [hf] at h
+  | some p =>
+    simp [hf] at h
+    have hm := List.mem_of_find?_eq_some hf
+    have hk := List.find?_some hf
+    simp at hk
+    obtain ⟨i, b⟩ := p
+    simp at hk h
+    subst hk; subst h
+    exact hm
+
+theorem nzB_get (x : SVec K) (hnz : ∀ p ∈ x, p.2 ≠ 0) (k : Nat) :
+    Metrics.nzB (get x k) = (look x k).isSome := by
+  rw [get_eq_look]
+  cases h : look x k with
+  | none => simp [nzB_zero]
+  | some a =>
+    have := hnz _ (look_some_mem x k a h)
+    simpa using this
+
+/-- `arr_intersect` size = number of positions where both dense vectors are non-zero. -/
+theorem interSize_eq_countP (n : Nat) (x y : SVec K) (hx : Canonical x) (hy : Canonical y)
+    (hxn : ∀ p ∈ x, p.1 < n) (hyn : ∀ p ∈ y, p.1 < n) :
+    interSize x y
+      = (List.range n).countP (fun k => Metrics.nzB (get x k) && Metrics.nzB (get y k)) := by
+  unfold interSize
+  set I := merge (fun _ _ => some (1 : K)) (fun _ => none) (fun _ => none) x y with hI
+  have hIc : Canonical I := by
+    refine ⟨merge_sorted _ _ _ x y hx.1 hy.1, ?_⟩
+    intro p hp
+    rcases mem_merge _ _ _ x y p hp with ⟨a, b, -, -, h⟩ | ⟨a, -, h⟩ | ⟨b, -, h⟩
+    · simp at h; rw [← h]; exact one_ne_zero
+    · simp at h
+    · simp at h
+  have hIn : ∀ p ∈ I, p.1 < n := merge_index_bound (· < n) _ _ _ x y hxn hyn
+  rw [length_eq_countP_dense n I hIc hIn]
+  congr 1
+  funext k
+  rw [nzB_get x hx.2, nzB_get y hy.2, hI, get_merge _ _ _ x y hx.1 hy.1]
+  cases look x k <;> cases look y k <;> simp [nzB_zero]
+
+/-- the support counts computed from the sparse rows are those of the dense vectors. -/
+theorem sCounts_eq (n : Nat) (x y : SVec K) (hx : Canonical x) (hy : Canonical y)
+    (hxn : ∀ p ∈ x, p.1 < n) (hyn : ∀ p ∈ y, p.1 < n) :
+    sCounts n x y = Metrics.counts (toDense n x) (toDense n y) := by
+  rw [counts_eq_countP, length_toDense, toDense_eq, toDense_eq, List.zip_map']
+  simp only [List.countP_map, Function.comp_def]
+  have htt := interSize_eq_countP n x y hx hy hxn hyn
+  have h1 := length_eq_countP_dense n x hx hxn
+  have h2 := length_eq_countP_dense n y hy hyn
+  rw [countP_split _ (fun k => Metrics.nzB (get y k))] at h1
+  rw [countP_split _ (fun k => Metrics.nzB (get x k))] at h2
+  have e : (List.range n).countP (fun k => Metrics.nzB (get y k) && Metrics.nzB (get x k))
+      = (List.range n).countP (fun k => Metrics.nzB (get x k) && Metrics.nzB (get y k)) := by
+    congr 1; funext k; exact Bool.and_comm _ _
+  have e' : (List.range n).countP (fun k => Metrics.nzB (get y k) && !Metrics.nzB (get x k))
+      = (List.range n).countP (fun k => !Metrics.nzB (get x k) && Metrics.nzB (get y k)) := by
+    congr 1; funext k; exact Bool.and_comm _ _
+  rw [e, e'] at h2
+  unfold sCounts
+  simp only [Metrics.Counts.mk.injEq, true_and]
+  refine ⟨htt, ?_, ?_⟩ <;> omega
+
+section binary
+variable (n : Nat) (x y : SVec K) (hx : Canonical x) (hy : Canonical y)
+  (hxn : ∀ p ∈ x, p.1 < n) (hyn : ∀ p ∈ y, p.1 < n)
+include hx hy hxn hyn
+
+theorem sJaccard_eq :
+    sJaccard x y = Metrics.jaccardC (Metrics.counts (toDense n x) (toDense n y)) := by
+  rw [← sCounts_eq n x y hx hy hxn hyn]; rfl
+
+theorem sMatching_eq :
+    sMatching n x y = Metrics.matchingC (Metrics.counts (toDense n x) (toDense n y)) := by
+  rw [← sCounts_eq n x y hx hy hxn hyn]; rfl
+
+theorem sDice_eq :
+    sDice x y = Metrics.diceC (Metrics.counts (toDense n x) (toDense n y)) := by
+  rw [← sCounts_eq n x y hx hy hxn hyn]; rfl
+
+theorem sKulsinski_eq :
+    sKulsinski n x y = Metrics.kulsinskiC (Metrics.counts (toDense n x) (toDense n y)) := by
+  rw [← sCounts_eq n x y hx hy hxn hyn]; rfl
+
+theorem sRogersTanimoto_eq :
+    sRogersTanimoto n x y
+      = Metrics.rogersTanimotoC (Metrics.counts (toDense n x) (toDense n y)) := by
+  rw [← sCounts_eq n x y hx hy hxn hyn]; rfl
+
+theorem sSokalMichener_eq :
+    sSokalMichener n x y
+      = Metrics.sokalMichenerC (Metrics.counts (toDense n x) (toDense n y)) := by
+  rw [← sCounts_eq n x y hx hy hxn hyn]; rfl
+
+theorem sSokalSneath_eq :
+    sSokalSneath x y = Metrics.sokalSneathC (Metrics.counts (toDense n x) (toDense n y)) := by
+  rw [← sCounts_eq n x y hx hy hxn hyn]; rfl
+
+end binary
+
+/-- rows with the same index list intersect in all their entries. -/
+theorem interSize_of_same_indices (x y : SVec K) (h : x.map (·.1) = y.map (·.1)) :
+    interSize x y = x.length := by
+  unfold interSize
+  fun_induction merge (fun _ _ => some (1 : K)) (fun _ => none) (fun _ => none) x y with
+  | case1 => simp
+  | case2 i a t ih => simp at h
+  | case3 j b u ih => simp at h
+  | case4 a t i b u ih =>
+    simp at h
+    simp [ih h]
+  | case5 i a t j b u hne hlt ih => simp at h; exact absurd h.1 hne
+  | case6 i a t j b u hne hlt ih => simp at h; exact absurd h.1 hne
+
+theorem countP_nz_vals (x : SVec K) (hnz : ∀ p ∈ x, p.2 ≠ 0) :
+    (vals x).countP (fun v => !isZ v) = x.length := by
+  have : (vals x).length = x.length := by simp [vals]
+  rw [← this, List.countP_eq_length]
+  intro v hv
+  obtain ⟨p, hp, rfl⟩ := List.mem_map.1 hv
+  exact (nzB_iff p.2).2 (hnz p hp)
+
+theorem sRussellRao_eq (n : Nat) (x y : SVec K) (hx : Canonical x) (hy : Canonical y)
+    (hxn : ∀ p ∈ x, p.1 < n) (hyn : ∀ p ∈ y, p.1 < n) :
+    sRussellRao n x y = Metrics.russellRaoC (Metrics.counts (toDense n x) (toDense n y)) := by
+  rw [← sCounts_eq n x y hx hy hxn hyn]
+  unfold sRussellRao Metrics.russellRaoC sCounts
+  have hl := interSize_le_min x y
+  have hl1 : interSize x y ≤ x.length := le_trans hl (min_le_left _ _)
+  have hl2 : interSize x y ≤ y.length := le_trans hl (min_le_right _ _)
+  simp only [countP_nz_vals x hx.2, countP_nz_vals y hy.2]
+  by_cases h : x.map (·.1) = y.map (·.1)
+  · have h1 := interSize_of_same_indices x y h
+    have h2 : x.length = y.length := by simpa using congrArg List.length h
+    rw [if_pos h, if_pos (by constructor <;> omega)]
+  · rw [if_neg h]
+    by_cases h' : interSize x y = x.length ∧ interSize x y = y.length
+    · rw [if_pos h', if_pos (by obtain ⟨h1, h2⟩ := h'; constructor <;> omega)]
+    · rw [if_neg h', if_neg (by intro ⟨h1, h2⟩; exact h' ⟨by omega, by omega⟩)]
+
+theorem nzB_sub (a b : K) : Metrics.nzB (a - b) = !(eqV a b) := by
+  unfold Metrics.nzB
+  congr 1
+  rw [Bool.eq_iff_iff, eqV_iff, eqV_iff, sub_eq_zero]
+
+/-- hamming: the number of stored entries of the sparse difference is the number of positions
+    where the dense vectors differ (sortedness suffices; stored zeros are allowed). -/
+theorem sHamming_eq (n : Nat) (x y : SVec K) (hx : Sorted x) (hy : Sorted y)
+    (hxn : ∀ p ∈ x, p.1 < n) (hyn : ∀ p ∈ y, p.1 < n) :
+    sHamming n x y = Metrics.hamming (toDense n x) (toDense n y) := by
+  unfold sHamming Metrics.hamming
+  have hc : Canonical (sparseDiff x y) := ⟨sparseDiff_sorted x y hx hy, sparseDiff_nonzero x y⟩
+  rw [length_toDense, length_eq_countP_dense n _ hc (sparseDiff_bound n x y hxn hyn),
+    toDense_eq, toDense_eq, List.zip_map', List.countP_map]
+  congr 2
+  funext k
+  simp only [Function.comp, get_sparseDiff x y hx hy, nzB_sub]
+
+/-! ### chebyshev -/
+
+theorem look_of_mem {α : Type} (d : SVec α) (hd : Sorted d) (p : Nat × α) (hp : p ∈ d) :
+    look d p.1 = some p.2 := by
+  induction d with
+  | nil => simp at hp
+  | cons q t ih =>
+    obtain ⟨i, a⟩ := q
+    rw [sorted_cons] at hd
+    rw [look_cons]
+    rcases List.mem_cons.1 hp with rfl | hp
+    · simp
+    · have := hd.1 p hp
+      rw [if_neg (by omega)]
+      exact ih hd.2 hp
+
+theorem get_of_mem (d : SVec K) (hd : Sorted d) (p : Nat × K) (hp : p ∈ d) : get d p.1 = p.2 := by
+  rw [get_eq_look, look_of_mem d hd p hp]; rfl
+
+theorem maxL_spec (l : List K) (init : K) :
+    init ≤ maxL init l ∧ (∀ v ∈ l, v ≤ maxL init l) ∧ (maxL init l = init ∨ maxL init l ∈ l) := by
+  induction l generalizing init with
+  | nil => simp [maxL]
+  | cons a l ih =>
+    have e : maxL init (a :: l) = maxL (if init < a then a else init) l := rfl
+    rw [e]
+    obtain ⟨h1, h2, h3⟩ := ih (if init < a then a else init)
+    refine ⟨?_, ?_, ?_⟩
+    · refine le_trans ?_ h1
+      split_ifs with h
+      · exact le_of_lt h
+      · exact le_refl _
+    · intro v hv
+      rcases List.mem_cons.1 hv with rfl | hv
+      · refine le_trans ?_ h1
+        split_ifs with h
+        · exact le_refl _
+        · exact not_lt.1 h
+      · exact h2 v hv
+    · rcases h3 with h3 | h3
+      · by_cases h : init < a
+        · right; rw [if_pos h] at h3 ⊢; rw [h3]; exact List.mem_cons_self
+        · left; rw [if_neg h] at h3 ⊢; exact h3
+      · right; exact List.mem_cons_of_mem _ h3
+
+/-- two lists with the same members up to `0` have the same running maximum from `0`. -/
+theorem maxL_congr (l1 l2 : List K) (hA : ∀ v ∈ l1, v = 0 ∨ v ∈ l2) (hB : ∀ v ∈ l2, v ∈ l1) :
+    maxL 0 l1 = maxL 0 l2 := by
+  obtain ⟨a1, a2, a3⟩ := maxL_spec l1 0
+  obtain ⟨b1, b2, b3⟩ := maxL_spec l2 0
+  apply le_antisymm
+  · rcases a3 with h | h
+    · rw [h]; exact b1
+    · rcases hA _ h with h0 | h'
+      · rw [h0]; exact b1
+      · exact b2 _ h'
+  · rcases b3 with h | h
+    · rw [h]; exact a1
+    · exact a2 _ (hB _ h)
+
+theorem sChebyshev_eq (n : Nat) (x y : SVec K) (hx : Sorted x) (hy : Sorted y)
+    (hxn : ∀ p ∈ x, p.1 < n) (hyn : ∀ p ∈ y, p.1 < n) :
+    sChebyshev x y = Metrics.chebyshev (toDense n x) (toDense n y) := by
+  unfold sChebyshev Metrics.chebyshev
+  rw [diffs_toDense n x y hx hy]
+  have hd := sparseDiff_sorted x y hx hy
+  have hdn := sparseDiff_bound n x y hxn hyn
+  set d := sparseDiff x y
+  symm
+  apply maxL_congr
+  · intro v hv
+    obtain ⟨w, hw, rfl⟩ := List.mem_map.1 hv
+    rw [toDense_eq] at hw
+    obtain ⟨k, -, rfl⟩ := List.mem_map.1 hw
+    rw [get_eq_look]
+    cases h : look d k with
+    | none => left; exact absV_zero
+    | some a =>
+      right
+      exact List.mem_map.2 ⟨a, List.mem_map.2 ⟨(k, a), look_some_mem d k a h, rfl⟩, rfl⟩
+  · intro v hv
+    obtain ⟨w, hw, rfl⟩ := List.mem_map.1 hv
+    obtain ⟨p, hp, rfl⟩ := List.mem_map.1 hw
+    refine List.mem_map.2 ⟨p.2, ?_, rfl⟩
+    rw [toDense_eq]
+    exact List.mem_map.2 ⟨p.1, List.mem_range.2 (hdn p hp), get_of_mem d hd p hp⟩
+
+/-! ### bray-curtis and canberra -/
+
+theorem sum_vals_eq (n : Nat) (z : SVec K) (hz : Sorted z) (hn : ∀ p ∈ z, p.1 < n) :
+    sumL (vals z) = ((List.range n).map (get z)).sum := by
+  have := sum_dense (fun v : K => v) rfl n z hz hn
+  rw [sumL_eq_sum]
+  simpa [toDense_eq, Function.comp_def] using this.symm
+
+theorem bound_mapVal (h : K → K) (n : Nat) (y : SVec K) (hy : ∀ p ∈ y, p.1 < n) :
+    ∀ p ∈ y.map (fun p => (p.1, h p.2)), p.1 < n := by
+  intro p hp
+  obtain ⟨q, hq, rfl⟩ := List.mem_map.1 hp
+  exact hy q hq
+
+theorem absV_nonneg (a : K) : 0 ≤ absV a := by rw [absV_eq_abs]; exact abs_nonneg a
+
+theorem sum_map_absV_nonneg {β : Type} (f : β → K) (l : List β) :
+    0 ≤ (l.map (fun b => absV (f b))).sum := by
+  apply List.sum_nonneg
+  intro v hv
+  obtain ⟨b, -, rfl⟩ := List.mem_map.1 hv
+  exact absV_nonneg _
+
+theorem sBrayCurtis_eq (n : Nat) (x y : SVec K) (hx : Sorted x) (hy : Sorted y)
+    (hxn : ∀ p ∈ x, p.1 < n) (hyn : ∀ p ∈ y, p.1 < n) :
+    sBrayCurtis x y = Metrics.brayCurtis (toDense n x) (toDense n y) := by
+  unfold sBrayCurtis Metrics.brayCurtis
+  have hnum : sumL ((vals (sparseDiff x y)).map absV)
+      = sumL (((toDense n x).zip (toDense n y)).map (fun p => absV (p.1 - p.2))) := by
+    rw [sum_vals_sparseDiff absV absV_zero n x y hx hy hxn hyn]
+    unfold Metrics.diffs
+    rw [List.map_map]
+    rfl
+  have hden : sumL ((vals (sparseSum x y)).map absV)
+      = sumL (((toDense n x).zip (toDense n y)).map (fun p => absV (p.1 + p.2))) := by
+    rw [sumL_eq_sum, sumL_eq_sum,
+      ← sum_dense absV absV_zero n _ (sparseSum_sorted x y hx hy) (sparseSum_bound n x y hxn hyn),
+      toDense_sparseSum n x y hx hy, List.map_zipWith, List.map_zip_eq_zipWith]
+    rfl
+  have hnn : 0 ≤ sumL (((toDense n x).zip (toDense n y)).map (fun p => absV (p.1 + p.2))) := by
+    rw [sumL_eq_sum]; exact sum_map_absV_nonneg _ _
+  simp only [hnum, hden]
+  set D := sumL (((toDense n x).zip (toDense n y)).map (fun p => absV (p.1 + p.2))) with hD
+  by_cases h0 : ((vals (sparseSum x y)).map absV).length = 0
+  · rw [if_pos h0]
+    have : (vals (sparseSum x y)).map absV = [] := List.length_eq_zero_iff.1 h0
+    have hD0 : D = 0 := by rw [← hden, this]; simp
+    rw [if_neg (by rw [hD0]; exact lt_irrefl _)]
+  · rw [if_neg h0]
+    by_cases hz : D = 0
+    · have : isZ D = true := (eqV_iff _ _).2 hz
+      rw [if_pos this, if_neg (by rw [hz]; exact lt_irrefl _)]
+    · have : ¬ isZ D = true := fun h => hz ((eqV_iff _ _).1 h)
+      rw [if_neg this, if_pos (lt_of_le_of_ne hnn (Ne.symm hz))]
+
+theorem sCanberra_eq (n : Nat) (x y : SVec K) (hx : Sorted x) (hy : Sorted y)
+    (hxn : ∀ p ∈ x, p.1 < n) (hyn : ∀ p ∈ y, p.1 < n) :
+    sCanberra x y = Metrics.canberra (toDense n x) (toDense n y) := by
+  unfold sCanberra Metrics.canberra
+  simp only
+  set ax := x.map (fun p => (p.1, absV p.2))
+  set ay := y.map (fun p => (p.1, absV p.2))
+  have hax : Sorted ax := (sorted_mapVal absV x).2 hx
+  have hay : Sorted ay := (sorted_mapVal absV y).2 hy
+  have haxn : ∀ p ∈ ax, p.1 < n := bound_mapVal absV n x hxn
+  have hayn : ∀ p ∈ ay, p.1 < n := bound_mapVal absV n y hyn
+  set den := (sparseSum ax ay).map (fun p => (p.1, 1 / p.2))
+  set num := (sparseDiff x y).map (fun p => (p.1, absV p.2))
+  have hden : Sorted den := (sorted_mapVal (fun v => 1 / v) _).2 (sparseSum_sorted ax ay hax hay)
+  have hnum : Sorted num := (sorted_mapVal absV _).2 (sparseDiff_sorted x y hx hy)
+  have hdenn : ∀ p ∈ den, p.1 < n :=
+    bound_mapVal (fun v => 1 / v) n _ (sparseSum_bound n ax ay haxn hayn)
+  have hnumn : ∀ p ∈ num, p.1 < n := bound_mapVal absV n _ (sparseDiff_bound n x y hxn hyn)
+  rw [sum_vals_eq n _ (sparseMul_sorted num den hnum hden) (sparseMul_bound n num den hnumn hdenn),
+    sumL_eq_sum, toDense_eq, toDense_eq, List.zip_map', List.map_map]
+  congr 1
+  refine List.map_congr_left (fun k _ => ?_)
+  simp only [Function.comp]
+  rw [get_sparseMul num den hnum hden, get_mapVal absV absV_zero, get_sparseDiff x y hx hy,
+    get_mapVal (fun v => 1 / v) (by simp), get_sparseSum ax ay hax hay,
+    get_mapVal absV absV_zero, get_mapVal absV absV_zero]
+  have hnn : 0 ≤ absV (get x k) + absV (get y k) := add_nonneg (absV_nonneg _) (absV_nonneg _)
+  by_cases hpos : 0 < absV (get x k) + absV (get y k)
+  · rw [if_pos hpos, mul_one_div]
+  · rw [if_neg hpos]
+    have : absV (get x k) + absV (get y k) = 0 := le_antisymm (not_lt.1 hpos) hnn
+    rw [this]; simp
+
+/-! ### cosine and hellinger (for any `Transc` whose `sqrt` behaves like the real one) -/
+
+theorem dot_toDense (n : Nat) (x y : SVec K) (hx : Sorted x) (hy : Sorted y)
+    (hxn : ∀ p ∈ x, p.1 < n) (hyn : ∀ p ∈ y, p.1 < n) :
+    Metrics.dot (toDense n x) (toDense n y) = sumL (vals (sparseMul x y)) := by
+  unfold Metrics.dot
+  rw [sum_vals_eq n _ (sparseMul_sorted x y hx hy) (sparseMul_bound n x y hxn hyn),
+    sumL_eq_sum, toDense_eq, toDense_eq, List.zip_map', List.map_map]
+  congr 1
+  refine List.map_congr_left (fun k _ => ?_)
+  simp only [Function.comp]
+  rw [get_sparseMul x y hx hy]
+
+theorem dot_self_toDense (n : Nat) (x : SVec K) (hx : Sorted x) (hxn : ∀ p ∈ x, p.1 < n) :
+    Metrics.dot (toDense n x) (toDense n x) = sumL ((vals x).map (fun v => v * v)) := by
+  unfold Metrics.dot
+  rw [sumL_eq_sum, sumL_eq_sum, ← sum_dense (fun v => v * v) (by simp) n x hx hxn,
+    toDense_eq, List.zip_map', List.map_map, List.map_map]
+  rfl
+
+theorem sum_toDense (n : Nat) (x : SVec K) (hx : Sorted x) (hxn : ∀ p ∈ x, p.1 < n) :
+    sumL (toDense n x) = sumL (vals x) := by
+  rw [sum_vals_eq n x hx hxn, sumL_eq_sum, toDense_eq]
+
+/-- `hs`, `hm`: on non-negative arguments `sqrt` vanishes only at `0` and is multiplicative
+    (both true of `Real.sqrt`, see the example below). -/
+theorem sCosine_eq (T : Transc K) (hs : ∀ a, 0 ≤ a → (T.sqrt a = 0 ↔ a = 0))
+    (hm : ∀ a b, 0 ≤ a → 0 ≤ b → T.sqrt a * T.sqrt b = T.sqrt (a * b))
+    (n : Nat) (x y : SVec K) (hx : Sorted x) (hy : Sorted y)
+    (hxn : ∀ p ∈ x, p.1 < n) (hyn : ∀ p ∈ y, p.1 < n) :
+    sCosine T x y = Metrics.cosine T (toDense n x) (toDense n y) := by
+  unfold sCosine Metrics.cosine
+  rw [dot_toDense n x y hx hy hxn hyn, dot_self_toDense n x hx hxn, dot_self_toDense n y hy hyn]
+  have nn : ∀ z : SVec K, 0 ≤ sumL ((vals z).map (fun v => v * v)) := by
+    intro z
+    rw [sumL_eq_sum]
+    apply List.sum_nonneg
+    intro v hv
+    obtain ⟨w, -, rfl⟩ := List.mem_map.1 hv
+    exact mul_self_nonneg w
+  set sx := sumL ((vals x).map (fun v => v * v))
+  set sy := sumL ((vals y).map (fun v => v * v))
+  have e1 : isZ (T.sqrt sx) = eqV sx 0 := by
+    unfold isZ; rw [Bool.eq_iff_iff, eqV_iff, eqV_iff]; exact hs sx (nn x)
+  have e2 : isZ (T.sqrt sy) = eqV sy 0 := by
+    unfold isZ; rw [Bool.eq_iff_iff, eqV_iff, eqV_iff]; exact hs sy (nn y)
+  simp only [e1, e2, hm sx sy (nn x) (nn y)]
+
+/-- hellinger, for non-negative data (the metric's domain).  `hs0`, `hpos`, `hneg`: `sqrt 0 = 0`,
+    `sqrt` is positive on positives and `0` on negatives (true of `Real.sqrt`). -/
+theorem sHellinger_eq (T : Transc K) (hs0 : T.sqrt 0 = 0) (hpos : ∀ a, 0 < a → 0 < T.sqrt a)
+    (hneg : ∀ a, a < 0 → T.sqrt a = 0)
+    (n : Nat) (x y : SVec K) (hx : Sorted x) (hy : Sorted y)
+    (hxn : ∀ p ∈ x, p.1 < n) (hyn : ∀ p ∈ y, p.1 < n)
+    (hxp : ∀ p ∈ x, 0 ≤ p.2) (hyp : ∀ p ∈ y, 0 ≤ p.2) :
+    sHellinger T x y = Metrics.hellinger T (toDense n x) (toDense n y) := by
+  unfold sHellinger Metrics.hellinger
+  have hr : sumL (((toDense n x).zip (toDense n y)).map (fun p => T.sqrt (p.1 * p.2)))
+      = sumL ((vals (sparseMul x y)).map T.sqrt) := by
+    rw [sumL_eq_sum, sumL_eq_sum,
+      ← sum_dense T.sqrt hs0 n _ (sparseMul_sorted x y hx hy) (sparseMul_bound n x y hxn hyn),
+      toDense_sparseMul n x y hx hy, List.map_zipWith, List.map_zip_eq_zipWith]
+    rfl
+  rw [hr, sum_toDense n x hx hxn, sum_toDense n y hy hyn]
+  have nn : ∀ z : SVec K, (∀ p ∈ z, 0 ≤ p.2) → 0 ≤ sumL (vals z) := by
+    intro z hz
+    rw [sumL_eq_sum]
+    apply List.sum_nonneg
+    intro v hv
+    obtain ⟨p, hp, rfl⟩ := List.mem_map.1 hv
+    exact hz p hp
+  set n1 := sumL (vals x)
+  set n2 := sumL (vals y)
+  set r := sumL ((vals (sparseMul x y)).map T.sqrt)
+  unfold isZ
+  simp only
+  by_cases hc1 : (eqV n1 0 && eqV n2 0) = true
+  · rw [if_pos hc1, if_pos hc1]
+  · rw [if_neg hc1, if_neg hc1]
+    by_cases hc2 : (eqV n1 0 || eqV n2 0) = true
+    · rw [if_pos hc2, if_pos hc2]
+    · rw [if_neg hc2, if_neg hc2]
+      simp only [Bool.or_eq_true, eqV_iff, not_or] at hc2
+      have h1 : 0 < n1 := lt_of_le_of_ne (nn x hxp) (Ne.symm hc2.1)
+      have h2 : 0 < n2 := lt_of_le_of_ne (nn y hyp) (Ne.symm hc2.2)
+      have h3 : 0 < T.sqrt (n1 * n2) := hpos _ (mul_pos h1 h2)
+      by_cases hlt : T.sqrt (n1 * n2) < r
+      · rw [if_pos hlt]
+        have : 1 < r / T.sqrt (n1 * n2) := (one_lt_div h3).2 hlt
+        exact (hneg _ (by linarith)).symm
+      · rw [if_neg hlt]
+
+/-! ### correlation (the repaired `sparse_correlation`) -/
+
+theorem list_sum_range {M : Type} [AddCommMonoid M] (f : Nat → M) (n : Nat) :
+    ((List.range n).map f).sum = ∑ k ∈ Finset.range n, f k := by
+  induction n with
+  | zero => simp
+  | succ n ih =>
+    rw [List.range_succ, List.map_append, List.sum_append, ih, Finset.sum_range_succ]
+    simp
+
+/-- a sum over the stored entries is a sum over all positions (index-dependent summand). -/
+theorem sum_look {α M : Type} [AddCommMonoid M] (H : Nat → α → M) (n : Nat) (z : SVec α)
+    (hz : Sorted z) (hn : ∀ p ∈ z, p.1 < n) :
+    (z.map (fun p => H p.1 p.2)).sum = ∑ k ∈ Finset.range n, (look z k).elim 0 (H k) := by
+  rw [← list_sum_range]
+  induction z with
+  | nil => simp
+  | cons p t ih =>
+    obtain ⟨i, a⟩ := p
+    rw [sorted_cons] at hz
+    have hi : i < n := hn (i, a) (by simp)
+    have e : (List.range n).map (fun k => (look ((i, a) :: t) k).elim 0 (H k))
+        = (List.range n).map
+            (fun k => (if k = i then H i a else 0) + (look t k).elim 0 (H k)) := by
+      refine List.map_congr_left (fun k _ => ?_)
+      rw [look_cons]
+      by_cases hk : i = k
+      · subst hk; simp [look_none_of_lt t i hz.1]
+      · have : ¬ k = i := fun e => hk e.symm
+        simp [hk, this]
+    rw [e, List.sum_map_add, sum_range_ite, if_pos hi,
+      ← ih hz.2 (fun p hp => hn p (List.mem_cons_of_mem _ hp))]
+    simp
+
+theorem length_eq_sum_look {α : Type} (n : Nat) (z : SVec α) (hz : Sorted z)
+    (hn : ∀ p ∈ z, p.1 < n) :
+    z.length = ∑ k ∈ Finset.range n, (look z k).elim 0 (fun _ => 1) := by
+  rw [← sum_look (fun _ _ => 1) n z hz hn]
+  simp
+
+theorem length_le_of_bound {α : Type} (n : Nat) (z : SVec α) (hz : Sorted z)
+    (hn : ∀ p ∈ z, p.1 < n) : z.length ≤ n := by
+  rw [length_eq_sum_look n z hz hn]
+  calc ∑ k ∈ Finset.range n, (look z k).elim 0 (fun _ => 1)
+      ≤ ∑ _k ∈ Finset.range n, 1 := by
+        apply Finset.sum_le_sum
+        intro k _
+        cases look z k <;> simp
+    _ = n := by simp
+
+theorem any_eq_look {α : Type} (x : SVec α) (i : Nat) :
+    x.any (·.1 == i) = (look x i).isSome := by
+  induction x with
+  | nil => rfl
+  | cons p t ih =>
+    obtain ⟨j, a⟩ := p
+    rw [List.any_cons, look_cons, ih]
+    by_cases h : j = i <;> simp [h]
+
+theorem foldl_sub {β : Type} (c : β → Bool) (w : β → K) (l : List β) (init : K) :
+    l.foldl (fun acc p => if c p then acc else acc - w p) init
+      = init - (l.map (fun p => if c p then 0 else w p)).sum := by
+  induction l generalizing init with
+  | nil => simp
+  | cons p l ih =>
+    rw [List.foldl_cons, ih, List.map_cons, List.sum_cons]
+    by_cases h : c p = true
+    · simp [h]
+    · simp [h]; ring
+
+theorem dot_map_range (f g : Nat → K) (n : Nat) :
+    Metrics.dot ((List.range n).map f) ((List.range n).map g)
+      = ∑ k ∈ Finset.range n, f k * g k := by
+  unfold Metrics.dot
+  rw [List.zip_map', List.map_map, sumL_eq_sum, list_sum_range]
+  rfl
+
+/-- the dense correlation of densified rows, written with sums over positions. -/
+theorem correlation_toDense (T : Transc K) (n : Nat) (x y : SVec K) (hx : Sorted x)
+    (hy : Sorted y) (hxn : ∀ p ∈ x, p.1 < n) (hyn : ∀ p ∈ y, p.1 < n) :
+    Metrics.correlation T (toDense n x) (toDense n y) =
+      if (eqV (∑ k ∈ Finset.range n, (get x k - sumL (vals x) / (n : K))
+                  * (get x k - sumL (vals x) / (n : K))) 0
+          && eqV (∑ k ∈ Finset.range n, (get y k - sumL (vals y) / (n : K))
+                  * (get y k - sumL (vals y) / (n : K))) 0) then 0
+      else if eqV (∑ k ∈ Finset.range n, (get x k - sumL (vals x) / (n : K))
+                  * (get y k - sumL (vals y) / (n : K))) 0 then 1
+      else 1 - (∑ k ∈ Finset.range n, (get x k - sumL (vals x) / (n : K))
+                  * (get y k - sumL (vals y) / (n : K)))
+             / T.sqrt ((∑ k ∈ Finset.range n, (get x k - sumL (vals x) / (n : K))
+                  * (get x k - sumL (vals x) / (n : K)))
+                * (∑ k ∈ Finset.range n, (get y k - sumL (vals y) / (n : K))
+                  * (get y k - sumL (vals y) / (n : K)))) := by
+  unfold Metrics.correlation Metrics.mean
+  rw [sum_toDense n x hx hxn, sum_toDense n y hy hyn, length_toDense]
+  simp only [toDense_eq, List.map_map, dot_map_range, Function.comp_def]
+
+/-- the centred squared norm computed from the stored entries plus the implicit zeros. -/
+theorem sCorrelation_norm (n : Nat) (x : SVec K) (hx : Sorted x) (hxn : ∀ p ∈ x, p.1 < n)
+    (m : K) :
+    sumL ((vals (x.map (fun p => (p.1, p.2 - m)))).map (fun v => v * v))
+        + ((n - x.length : Nat) : K) * (m * m)
+      = ∑ k ∈ Finset.range n, (get x k - m) * (get x k - m) := by
+  have hle := length_le_of_bound n x hx hxn
+  have h1 : sumL ((vals (x.map (fun p => (p.1, p.2 - m)))).map (fun v => v * v))
+      = ∑ k ∈ Finset.range n, (look x k).elim 0 (fun a => (a - m) * (a - m)) := by
+    rw [← sum_look (fun _ a => (a - m) * (a - m)) n x hx hxn, sumL_eq_sum]
+    simp [vals, List.map_map, Function.comp_def]
+  have h2 : (x.length : K) = ∑ k ∈ Finset.range n, (look x k).elim 0 (fun _ => (1 : K)) := by
+    rw [← sum_look (fun _ _ => (1 : K)) n x hx hxn]
+    simp
+  have h3 : (n : K) = ∑ _k ∈ Finset.range n, (1 : K) := by simp
+  rw [h1, Nat.cast_sub hle, h2, h3, ← Finset.sum_sub_distrib, Finset.sum_mul,
+    ← Finset.sum_add_distrib]
+  refine Finset.sum_congr rfl (fun k _ => ?_)
+  rw [get_eq_look]
+  cases look x k <;> simp
+
+theorem cast_countP_range (q : Nat → Bool) (n : Nat) :
+    (((List.range n).countP q : Nat) : K) = ∑ k ∈ Finset.range n, if q k then 1 else 0 := by
+  induction n with
+  | zero => simp
+  | succ n ih =>
+    rw [List.range_succ, List.countP_append, Nat.cast_add, ih, Finset.sum_range_succ]
+    by_cases h : q n = true <;> simp [h]
+
+/-- positions stored in neither row. -/
+theorem cast_sub_unionSize (n : Nat) (x y : SVec K) (hx : Sorted x) (hy : Sorted y)
+    (hxn : ∀ p ∈ x, p.1 < n) (hyn : ∀ p ∈ y, p.1 < n) :
+    ((n - unionSize x y : Nat) : K)
+      = ∑ k ∈ Finset.range n, if ((look x k).isSome || (look y k).isSome) then 0 else 1 := by
+  unfold unionSize
+  set U := merge (fun _ _ => some (1 : K)) (fun _ => some 1) (fun _ => some 1) x y with hU
+  have hUs : Sorted U := merge_sorted _ _ _ x y hx hy
+  have hUn : ∀ p ∈ U, p.1 < n := merge_index_bound (· < n) _ _ _ x y hxn hyn
+  have hlen : U.length = (List.range n).countP (fun k => (look x k).isSome || (look y k).isSome) := by
+    have := length_eq_sum_look n U hUs hUn
+    rw [this, countP_eq_sum, list_sum_range]
+    refine Finset.sum_congr rfl (fun k _ => ?_)
+    rw [hU, look_merge _ _ _ x y hx hy]
+    cases look x k <;> cases look y k <;> simp
+  have hn := List.length_eq_countP_add_countP
+    (fun k => (look x k).isSome || (look y k).isSome) (l := List.range n)
+  rw [List.length_range] at hn
+  have : n - U.length
+      = (List.range n).countP (fun k => !((look x k).isSome || (look y k).isSome)) := by
+    rw [hlen]
+    have e : (List.range n).countP
+          (fun k => decide ¬((look x k).isSome || (look y k).isSome) = true)
+        = (List.range n).countP (fun k => !((look x k).isSome || (look y k).isSome)) := by
+      congr 1; funext k; cases ((look x k).isSome || (look y k).isSome) <;> simp
+    omega
+  rw [this, cast_countP_range]
+  refine Finset.sum_congr rfl (fun k _ => ?_)
+  cases ((look x k).isSome || (look y k).isSome) <;> simp
+
+/-- the sparse dot product of the centred rows, corrected for the one-sided and the absent
+    positions, is the dense centred dot product. -/
+theorem sCorrelation_dp (n : Nat) (x y : SVec K) (hx : Sorted x) (hy : Sorted y)
+    (hxn : ∀ p ∈ x, p.1 < n) (hyn : ∀ p ∈ y, p.1 < n) (mx my : K) :
+    (y.map (fun p => (p.1, p.2 - my))).foldl
+        (fun acc p => if (x.any (·.1 == p.1) && y.any (·.1 == p.1)) then acc else acc - p.2 * mx)
+        ((x.map (fun p => (p.1, p.2 - mx))).foldl
+          (fun acc p => if (x.any (·.1 == p.1) && y.any (·.1 == p.1)) then acc
+            else acc - p.2 * my)
+          (sumL (vals (sparseMul (x.map (fun p => (p.1, p.2 - mx)))
+            (y.map (fun p => (p.1, p.2 - my)))))))
+      + mx * my * ((n - unionSize x y : Nat) : K)
+    = ∑ k ∈ Finset.range n, (get x k - mx) * (get y k - my) := by
+  set sx := x.map (fun p => (p.1, p.2 - mx)) with hsx
+  set sy := y.map (fun p => (p.1, p.2 - my)) with hsy
+  have hsxs : Sorted sx := (sorted_mapVal (fun v => v - mx) x).2 hx
+  have hsys : Sorted sy := (sorted_mapVal (fun v => v - my) y).2 hy
+  have hsxn : ∀ p ∈ sx, p.1 < n := bound_mapVal (fun v => v - mx) n x hxn
+  have hsyn : ∀ p ∈ sy, p.1 < n := bound_mapVal (fun v => v - my) n y hyn
+  rw [foldl_sub, foldl_sub,
+    sum_look (fun k a => if (x.any (·.1 == k) && y.any (·.1 == k)) then 0 else a * mx) n sy hsys hsyn,
+    sum_look (fun k a => if (x.any (·.1 == k) && y.any (·.1 == k)) then 0 else a * my) n sx hsxs hsxn,
+    sum_vals_eq n _ (sparseMul_sorted sx sy hsxs hsys) (sparseMul_bound n sx sy hsxn hsyn),
+    list_sum_range, cast_sub_unionSize n x y hx hy hxn hyn, Finset.mul_sum,
+    ← Finset.sum_sub_distrib, ← Finset.sum_sub_distrib, ← Finset.sum_add_distrib]
+  refine Finset.sum_congr rfl (fun k _ => ?_)
+  rw [get_sparseMul sx sy hsxs hsys, get_eq_look sx, get_eq_look sy, get_eq_look x, get_eq_look y,
+    hsx, hsy, look_mapVal (fun v => v - mx) x k, look_mapVal (fun v => v - my) y k,
+    any_eq_look, any_eq_look]
+  cases look x k <;> cases look y k <;> simp <;> ring
+
+/-- `hs`, `hm` as for cosine. -/
+theorem sCorrelation_eq (T : Transc K) (hs : ∀ a, 0 ≤ a → (T.sqrt a = 0 ↔ a = 0))
+    (hm : ∀ a b, 0 ≤ a → 0 ≤ b → T.sqrt a * T.sqrt b = T.sqrt (a * b))
+    (n : Nat) (x y : SVec K) (hx : Sorted x) (hy : Sorted y)
+    (hxn : ∀ p ∈ x, p.1 < n) (hyn : ∀ p ∈ y, p.1 < n) :
+    sCorrelation T n x y = Metrics.correlation T (toDense n x) (toDense n y) := by
+  rw [correlation_toDense T n x y hx hy hxn hyn]
+  unfold sCorrelation
+  by_cases h0 : x.length = 0 ∧ y.length = 0
+  · rw [if_pos h0]
+    obtain ⟨h1, h2⟩ := h0
+    rw [List.length_eq_zero_iff] at h1 h2
+    subst h1 h2
+    simp [get_nil, vals]
+  · rw [if_neg h0]
+    simp only
+    rw [sCorrelation_dp n x y hx hy hxn hyn, sCorrelation_norm n x hx hxn,
+      sCorrelation_norm n y hy hyn]
+    have nn : ∀ (z : SVec K) (m : K),
+        0 ≤ ∑ k ∈ Finset.range n, (get z k - m) * (get z k - m) :=
+      fun z m => Finset.sum_nonneg (fun k _ => mul_self_nonneg _)
+    set NX := ∑ k ∈ Finset.range n, (get x k - sumL (vals x) / (n : K))
+      * (get x k - sumL (vals x) / (n : K)) with hNX
+    set NY := ∑ k ∈ Finset.range n, (get y k - sumL (vals y) / (n : K))
+      * (get y k - sumL (vals y) / (n : K)) with hNY
+    have e1 : isZ (T.sqrt NX) = eqV NX 0 := by
+      unfold isZ; rw [Bool.eq_iff_iff, eqV_iff, eqV_iff]; exact hs NX (nn x _)
+    have e2 : isZ (T.sqrt NY) = eqV NY 0 := by
+      unfold isZ; rw [Bool.eq_iff_iff, eqV_iff, eqV_iff]; exact hs NY (nn y _)
+    rw [e1, e2, hm NX NY (nn x _) (nn y _)]
+    rfl
+
+/-! ### ll_dirichlet (count data: every stored value is at least 1) -/
+
+section lld
+local notation "θ" => (((9 : Nat) : K) / ((10 : Nat) : K))
+
+theorem llDirichlet_foldl (T : Transc K) (pi : K) (l : List (K × K)) (acc : K × K × K) :
+    l.foldl (fun (acc : K × K × K) p =>
+      if θ < p.1 * p.2 then
+        (acc.1 + Metrics.logBeta T pi p.1 p.2, acc.2.1 + Metrics.logSingleBeta T pi p.1,
+          acc.2.2 + Metrics.logSingleBeta T pi p.2)
+      else
+        (acc.1, (if θ < p.1 then acc.2.1 + Metrics.logSingleBeta T pi p.1 else acc.2.1),
+                (if θ < p.2 then acc.2.2 + Metrics.logSingleBeta T pi p.2 else acc.2.2))) acc
+    = (acc.1 + (l.map (fun p => if θ < p.1 * p.2 then Metrics.logBeta T pi p.1 p.2 else 0)).sum,
+       acc.2.1 + (l.map (fun p => if θ < p.1 * p.2 ∨ θ < p.1
+          then Metrics.logSingleBeta T pi p.1 else 0)).sum,
+       acc.2.2 + (l.map (fun p => if θ < p.1 * p.2 ∨ θ < p.2
+          then Metrics.logSingleBeta T pi p.2 else 0)).sum) := by
+  induction l generalizing acc with
+  | nil => simp
+  | cons p l ih =>
+    rw [List.foldl_cons, ih]
+    simp only [List.map_cons, List.sum_cons]
+    by_cases h0 : θ < p.1 * p.2
+    · simp only [h0, if_true, true_or]
+      ext <;> simp only [] <;> ring
+    · by_cases h1 : θ < p.1 <;> by_cases h2 : θ < p.2 <;>
+        simp only [h0, h1, h2, if_true, if_false, false_or] <;>
+        (ext <;> simp only [] <;> ring)
+
+theorem sLlDirichlet_eq (T : Transc K) (pi big : K)
+    (n : Nat) (x y : SVec K) (hx : Sorted x) (hy : Sorted y)
+    (hxn : ∀ p ∈ x, p.1 < n) (hyn : ∀ p ∈ y, p.1 < n)
+    (hx1 : ∀ p ∈ x, 1 ≤ p.2) (hy1 : ∀ p ∈ y, 1 ≤ p.2) :
+    sLlDirichlet T pi big x y = Metrics.llDirichlet T pi big (toDense n x) (toDense n y) := by
+  unfold sLlDirichlet Metrics.llDirichlet
+  rw [sum_toDense n x hx hxn, sum_toDense n y hy hyn]
+  have hlook1 : ∀ (z : SVec K), (∀ p ∈ z, 1 ≤ p.2) → ∀ k a, look z k = some a → 1 ≤ a :=
+    fun z hz k a h => hz _ (look_some_mem z k a h)
+  set M := merge (fun a b => if isZ (a * b) then none else some (Metrics.logBeta T pi a b))
+    (fun _ => none) (fun _ => none) x y with hM
+  have hMs : Sorted M := merge_sorted _ _ _ x y hx hy
+  have hMn : ∀ p ∈ M, p.1 < n := merge_index_bound (· < n) _ _ _ x y hxn hyn
+  have hacc := llDirichlet_foldl T pi ((toDense n x).zip (toDense n y)) (0, 0, 0)
+  have h1 : (((toDense n x).zip (toDense n y)).map
+        (fun p => if θ < p.1 * p.2 then Metrics.logBeta T pi p.1 p.2 else 0)).sum
+      = sumL (M.map (·.2)) := by
+    rw [sumL_eq_sum, sum_look (fun _ a => a) n M hMs hMn, toDense_eq, toDense_eq, List.zip_map',
+      List.map_map, list_sum_range]
+    refine Finset.sum_congr rfl (fun k _ => ?_)
+    simp only [Function.comp]
+    rw [hM, look_merge _ _ _ x y hx hy, get_eq_look x, get_eq_look y]
+    cases hxk : look x k with
+    | none =>
+      have : ¬ (9 / 10 : K) < 0 := by norm_num
+      cases look y k <;> simp [this]
+    | some a =>
+      cases hyk : look y k with
+      | none =>
+        have : ¬ (9 / 10 : K) < 0 := by norm_num
+        simp [this]
+      | some b =>
+        have ha := hlook1 x hx1 k a hxk
+        have hb := hlook1 y hy1 k b hyk
+        have hab : 1 ≤ a * b := one_le_mul_of_one_le_of_one_le ha hb
+        have h1 : (9 / 10 : K) < a * b := lt_of_lt_of_le (by norm_num) hab
+        have h2 : ¬ isZ (a * b) = true := by
+          unfold isZ; rw [eqV_iff]; exact ne_of_gt (lt_of_lt_of_le one_pos hab)
+        simp [h1, h2]
+  have h2 : ∀ (z w : SVec K), Sorted z → (∀ p ∈ z, p.1 < n) → (∀ p ∈ z, 1 ≤ p.2) →
+      ((List.range n).map (fun k => if θ < get z k * get w k ∨ θ < get z k
+          then Metrics.logSingleBeta T pi (get z k) else 0)).sum
+        = sumL ((vals z).map (Metrics.logSingleBeta T pi)) := by
+    intro z w hz hzn hz1
+    have := sum_look (fun _ a => Metrics.logSingleBeta T pi a) n z hz hzn
+    rw [sumL_eq_sum]
+    unfold vals
+    rw [List.map_map]
+    simp only [Function.comp_def]
+    rw [this, list_sum_range]
+    refine Finset.sum_congr rfl (fun k _ => ?_)
+    rw [get_eq_look z]
+    cases hzk : look z k with
+    | none =>
+      have : ¬ (9 / 10 : K) < 0 := by norm_num
+      simp [this]
+    | some a =>
+      have ha := hlook1 z hz1 k a hzk
+      have : (9 / 10 : K) < a := lt_of_lt_of_le (by norm_num) ha
+      simp [this]
+  have h3 : (((toDense n x).zip (toDense n y)).map
+        (fun p => if θ < p.1 * p.2 ∨ θ < p.1 then Metrics.logSingleBeta T pi p.1 else 0)).sum
+      = sumL ((vals x).map (Metrics.logSingleBeta T pi)) := by
+    rw [← h2 x y hx hxn hx1, toDense_eq, toDense_eq, List.zip_map', List.map_map]
+    rfl
+  have h4 : (((toDense n x).zip (toDense n y)).map
+        (fun p => if θ < p.1 * p.2 ∨ θ < p.2 then Metrics.logSingleBeta T pi p.2 else 0)).sum
+      = sumL ((vals y).map (Metrics.logSingleBeta T pi)) := by
+    rw [← h2 y x hy hyn hy1, toDense_eq, toDense_eq, List.zip_map', List.map_map]
+    refine congrArg List.sum (List.map_congr_left (fun k _ => ?_))
+    simp only [Function.comp, mul_comm]
+  rw [h1, h3, h4] at hacc
+  simp only [zero_add] at hacc
+  simp only []
+  rw [hacc]
+  rfl
+
+end lld
+
+/-! ### the real instance satisfies the `sqrt` / `pow` hypotheses used above -/
+
+theorem realT_sqrt_props :
+    (∀ a : ℝ, 0 ≤ a → (realT.sqrt a = 0 ↔ a = 0))
+    ∧ (∀ a b : ℝ, 0 ≤ a → 0 ≤ b → realT.sqrt a * realT.sqrt b = realT.sqrt (a * b))
+    ∧ realT.sqrt 0 = 0
+    ∧ (∀ a : ℝ, 0 < a → 0 < realT.sqrt a)
+    ∧ (∀ a : ℝ, a < 0 → realT.sqrt a = 0)
+    ∧ (∀ p : ℝ, p ≠ 0 → realT.pow 0 p = 0) :=
+  ⟨fun _ ha => Real.sqrt_eq_zero ha, fun _ b ha _ => (Real.sqrt_mul ha b).symm, Real.sqrt_zero,
+    fun _ ha => Real.sqrt_pos.2 ha, fun _ ha => Real.sqrt_eq_zero_of_nonpos ha.le,
+    fun _ hp => Real.zero_rpow hp⟩
+
+section real
+variable (n : Nat) (x y : SVec ℝ) (hx : Sorted x) (hy : Sorted y)
+  (hxn : ∀ p ∈ x, p.1 < n) (hyn : ∀ p ∈ y, p.1 < n)
+include hx hy hxn hyn
+
+theorem sMinkowski_real (p : ℝ) (hp : p ≠ 0) :
+    sMinkowski realT p x y = Metrics.minkowski realT p (toDense n x) (toDense n y) :=
+  sMinkowski_eq realT p (realT_sqrt_props.2.2.2.2.2 p hp) n x y hx hy hxn hyn
+
+theorem sCosine_real :
+    sCosine realT x y = Metrics.cosine realT (toDense n x) (toDense n y) :=
+  sCosine_eq realT realT_sqrt_props.1 realT_sqrt_props.2.1 n x y hx hy hxn hyn
+
+theorem sCorrelation_real :
+    sCorrelation realT n x y = Metrics.correlation realT (toDense n x) (toDense n y) :=
+  sCorrelation_eq realT realT_sqrt_props.1 realT_sqrt_props.2.1 n x y hx hy hxn hyn
+
+theorem sHellinger_real (hxp : ∀ p ∈ x, 0 ≤ p.2) (hyp : ∀ p ∈ y, 0 ≤ p.2) :
+    sHellinger realT x y = Metrics.hellinger realT (toDense n x) (toDense n y) :=
+  sHellinger_eq realT realT_sqrt_props.2.2.1 realT_sqrt_props.2.2.2.1
+    realT_sqrt_props.2.2.2.2.1 n x y hx hy hxn hyn hxp hyp
+
+end real
+
+/-! ### non-vacuity: concrete canonical rows over ℚ -/
+
+def exX : SVec ℚ := [(0, 1), (2, 3)]
+def exY : SVec ℚ := [(1, 5), (2, -3)]
+
+example : Sorted exX ∧ Sorted exY := by decide +kernel
+example : (∀ p ∈ exX, p.1 < 3) ∧ (∀ p ∈ exY, p.1 < 3) := by decide +kernel
+example : (∀ p ∈ exX, p.2 ≠ 0) ∧ (∀ p ∈ exY, p.2 ≠ 0) := by decide +kernel
+example : Canonical exX ∧ Canonical exY := by unfold Canonical; decide +kernel
+/-- the `2`-entries cancel and are dropped by the sum, the product keeps only the common index. -/
+example : sparseSum exX exY = [(0, 1), (1, 5)] := by decide +kernel
+example : sparseDiff exX exY = [(0, 1), (1, -5), (2, 6)] := by decide +kernel
+example : sparseMul exX exY = [(2, -9)] := by decide +kernel
+example : toDense 3 exX = [1, 0, 3] ∧ toDense 3 exY = [0, 5, -3] := by decide +kernel
+example : toDense 3 (sparseSum exX exY) = [1, 5, 0] := by decide +kernel
+example : interSize exX exY = 1 ∧ unionSize exX exY = 3 := by decide +kernel
+example : sManhattan exX exY = 12 ∧ Metrics.manhattan (toDense 3 exX) (toDense 3 exY) = 12 := by
+  decide +kernel
+example : sChebyshev exX exY = 6 := by decide +kernel
+example : sCounts 3 exX exY = { n := 3, tt := 1, tf := 1, ft := 1 }
+    ∧ Metrics.counts (toDense 3 exX) (toDense 3 exY) = { n := 3, tt := 1, tf := 1, ft := 1 } := by
+  decide +kernel
+example : sJaccard exX exY = (2 / 3 : ℚ) := by decide +kernel
+example : sHamming 3 exX exY = (1 : ℚ) := by decide +kernel
+/-- sortedness is needed for the pointwise semantics: an unsorted row is mis-merged. -/
+example : get (sparseSum [(2, (1:ℚ)), (1, 1)] [(1, 1)]) 1 = 1
+    ∧ get [(2, (1:ℚ)), (1, 1)] 1 + get [(1, (1:ℚ))] 1 = 2 := by decide +kernel
+
+/-- the "no stored zero" half of `Canonical` is needed for the binary family: a stored zero is
+    counted by the sparse code but not by the dense one. -/
+example : sCounts 1 [(0, (0:ℚ))] [] = { n := 1, tt := 0, tf := 1, ft := 0 }
+    ∧ Metrics.counts (toDense 1 [(0, (0:ℚ))]) (toDense 1 ([] : SVec ℚ))
+        = { n := 1, tt := 0, tf := 0, ft := 0 } := by decide +kernel
+
+/-- count data for `ll_dirichlet`: all stored values `≥ 1`. -/
+def exZ : SVec ℚ := [(1, 5), (2, 2)]
+example : Sorted exZ ∧ (∀ p ∈ exZ, p.1 < 3) ∧ (∀ p ∈ exX, 1 ≤ p.2) ∧ (∀ p ∈ exZ, 1 ≤ p.2) := by
+  decide +kernel
+
+/-! real rows satisfying every hypothesis of the `…_real` theorems, and the theorems applied. -/
+
+noncomputable def exR : SVec ℝ := [(0, 1), (2, 3)]
+noncomputable def exS : SVec ℝ := [(1, 5), (2, 2)]
+
+theorem exR_ok : Sorted exR ∧ (∀ p ∈ exR, p.1 < 3) ∧ (∀ p ∈ exR, 0 ≤ p.2) ∧ (∀ p ∈ exR, 1 ≤ p.2) := by
+  simp [exR, Sorted]
+theorem exS_ok : Sorted exS ∧ (∀ p ∈ exS, p.1 < 3) ∧ (∀ p ∈ exS, 0 ≤ p.2) ∧ (∀ p ∈ exS, 1 ≤ p.2) := by
+  simp [exS, Sorted]
+
+example : sCosine realT exR exS = Metrics.cosine realT (toDense 3 exR) (toDense 3 exS) :=
+  sCosine_real 3 exR exS exR_ok.1 exS_ok.1 exR_ok.2.1 exS_ok.2.1
+example : sCorrelation realT 3 exR exS
+    = Metrics.correlation realT (toDense 3 exR) (toDense 3 exS) :=
+  sCorrelation_real 3 exR exS exR_ok.1 exS_ok.1 exR_ok.2.1 exS_ok.2.1
+example : sHellinger realT exR exS = Metrics.hellinger realT (toDense 3 exR) (toDense 3 exS) :=
+  sHellinger_real 3 exR exS exR_ok.1 exS_ok.1 exR_ok.2.1 exS_ok.2.1 exR_ok.2.2.1 exS_ok.2.2.1
+example : sMinkowski realT 3 exR exS
+    = Metrics.minkowski realT 3 (toDense 3 exR) (toDense 3 exS) :=
+  sMinkowski_real 3 exR exS exR_ok.1 exS_ok.1 exR_ok.2.1 exS_ok.2.1 3 (by norm_num)
+example (pi big : ℝ) : sLlDirichlet realT pi big exR exS
+    = Metrics.llDirichlet realT pi big (toDense 3 exR) (toDense 3 exS) :=
+  sLlDirichlet_eq realT pi big 3 exR exS exR_ok.1 exS_ok.1 exR_ok.2.1 exS_ok.2.1
+    exR_ok.2.2.2 exS_ok.2.2.2
+
+end C13
+end Umap
